@@ -439,10 +439,12 @@ func (s *socket) clearTransport() {
 // Possible reasons: `ping timeout`, `client error`, `parse error`,
 // `transport error`, `server close`, `transport close`
 func (s *socket) OnClose(reason string, description ...error) {
-	if s.ReadyState() != "closed" {
+	// the transition to "closed" must be taken by exactly one caller: close causes
+	// arrive concurrently from timers, handlers, readers and the application.
+	if s.readyState.Swap("closed") != "closed" {
 		description = append(description, nil)
 
-		s.SetReadyState("closed")
+		socket_log.Debug("readyState updated to closed")
 
 		// clear timers
 		utils.ClearTimeout(s.pingIntervalTimer.Load())
